@@ -249,6 +249,9 @@ type rzHarness struct {
 	cancelled map[string]chan struct{}        // handler key -> gate of a cancelled tool handler waiting to return
 	finishing bool
 	firsts    map[string]int // "<real session>\x00<real stream>" -> dataList.first last reported (evictions by the store)
+	yieldSite string        // one-shot: the next goroutine reaching this verifYield site parks
+	yieldGate chan struct{} // ... on this gate
+	yielded   bool          // a goroutine is parked at the site (the site is instrumented in this tree)
 }
 
 func (h *rzHarness) sawStream(sess, stream string) {
@@ -430,6 +433,20 @@ func rzNewHarness(t *testing.T, stateless, jsonMode, withStore bool) *rzHarness 
 		opts.EventStore = h.store
 	}
 	h.handler = NewStreamableHTTPHandler(func(*http.Request) *Server { return h.server }, opts)
+	// schedule points inside streamable.go (present only in a tree with fixes/hook-resume-yield.patch): between Write's
+	// routing section and its delivery section, between acquireStream's lookup and its stream-lock section
+	fn := func(site, detail string) {
+		h.mu.Lock()
+		if h.yieldSite != site || h.yieldGate == nil {
+			h.mu.Unlock()
+			return
+		}
+		gate := h.yieldGate
+		h.yieldSite, h.yielded = "", true
+		h.mu.Unlock()
+		<-gate
+	}
+	verifYieldHook.Store(&fn)
 	return h
 }
 
@@ -1056,6 +1073,8 @@ func (h *rzHarness) apply(toks []string) (obs string) {
 		s.conn.Close()
 		synctest.Wait()
 		return h.observe(toks[1])
+	case "racerg": // racerg <emit args> | get-args… : the write is held between its routing and its delivery section while the GET runs
+		return h.raceRouted(toks)
 	case "racewg": // racewg <sess> <req> <x> <N|C> <c|d> <serial> | get-args… : the write takes the stream lock first
 		return h.race(toks, true)
 	case "racegw":
@@ -1191,6 +1210,56 @@ func (h *rzHarness) race(toks []string, writeFirst bool) string {
 	return h.observe(w[0]) + " w=" + res()
 }
 
+// raceRouted holds a write at the schedule point between Write's two critical sections (routed under c.mu, stream
+// lock not yet taken), lets a GET run to completion, then releases the write. `win=1`: the site exists in this tree
+// and the write was parked there; `win=0`: not instrumented — the write simply completed before the GET.
+func (h *rzHarness) raceRouted(toks []string) string {
+	bar := -1
+	for i, t := range toks {
+		if t == "|" {
+			bar = i
+		}
+	}
+	if bar < 0 {
+		return "bad-op"
+	}
+	w, g := toks[1:bar], toks[bar+1:]
+	key := w[0] + "." + w[1] + "." + w[2]
+	h.mu.Lock()
+	c := h.calls[key]
+	h.mu.Unlock()
+	if c == nil {
+		return "nocall"
+	}
+	ctx := c.ctx
+	if w[4] == "d" {
+		ctx = context.Background()
+	}
+	tag := strings.Join([]string{w[0], w[1], w[2], w[4], w[5]}, ".")
+	gate := make(chan struct{})
+	h.mu.Lock()
+	h.yieldSite, h.yieldGate, h.yielded = "streamable.Write.routed", gate, false
+	h.mu.Unlock()
+	res := h.emit(c, w[3], ctx, tag)
+	synctest.Wait()
+	h.mu.Lock()
+	win := h.yielded
+	h.yieldSite = ""
+	h.mu.Unlock()
+	h.serve(h.getReq(g[0], rzKV(g)))
+	synctest.Wait()
+	close(gate)
+	synctest.Wait()
+	h.mu.Lock()
+	h.yieldGate, h.yielded = nil, false
+	h.mu.Unlock()
+	ws := "0"
+	if win {
+		ws = "1"
+	}
+	return h.observe(w[0]) + " w=" + res() + " win=" + ws
+}
+
 // abandon cancels the pending server->client calls of a session (Close would wait for them).
 func (h *rzHarness) abandon(sess string) {
 	h.mu.Lock()
@@ -1211,6 +1280,7 @@ func rzYield() {
 
 // finish releases everything so that the bubble can exit.
 func (h *rzHarness) finish() {
+	defer verifYieldHook.Store(nil)
 	h.drainCancelled()
 	h.mu.Lock()
 	h.finishing = true
@@ -1425,7 +1495,7 @@ func (g *rzGen) do(op string, tags ...string) string {
 				if len(toks) > 1 {
 					sess = toks[1]
 				}
-				if toks[0] == "racewg" || toks[0] == "racegw" {
+				if toks[0] == "racewg" || toks[0] == "racegw" || toks[0] == "racerg" {
 					sess = toks[1]
 				}
 				g.hang[n] = sess
@@ -1717,6 +1787,9 @@ func (g *rzGen) stepStateful() {
 				op := "racewg"
 				if g.chance(50) {
 					op = "racegw"
+				}
+				if g.prng != nil && g.prng.Intn(100) < 30 {
+					op = "racerg" // inside the window between Write's two critical sections
 				}
 				flag := "c"
 				if g.chance(30) {
